@@ -1,5 +1,22 @@
-//! Conformance harness for property C16, see /verif/DESIGN.md.
+//! Conformance harness for property C16 (variable scope, lifetime and
+//! attributes), see /verif/DESIGN.md section 6 and spec/VarRef.tla.
+mod varset;
+
 fn main() {
-    eprintln!("yv-c16: not implemented yet");
-    std::process::exit(2);
+    let args: Vec<String> = std::env::args().collect();
+    if args.len() < 2 {
+        eprintln!("usage: yv-c16 <replay|random|redo> ...");
+        std::process::exit(2);
+    }
+    let rest = &args[2..];
+    let code = match args[1].as_str() {
+        "replay" => varset::replay(rest),
+        "random" => varset::random(rest),
+        "redo" => varset::redo(rest),
+        other => {
+            eprintln!("unknown subcommand {other}");
+            2
+        }
+    };
+    std::process::exit(code);
 }
